@@ -17,13 +17,33 @@ EXPLANATION = (
     'time freezing and of the predicates, not floating-point boundary behaviour.')
 
 
+def _filled_body(lam):
+    """Body of a predicate lambda with the default values of its extra parameters filled in (lambda d, timer=<expr>: .. binds a value when the
+    closure is made)."""
+    import copy
+    from ..partial import _Subst
+    extra = lam.args.args[1:]
+    if not extra or len(lam.args.defaults) != len(extra):
+        return lam.body
+    body = _Subst({a.arg: dv for a, dv in zip(extra, lam.args.defaults)}).visit(copy.deepcopy(lam.body))
+    ast.fix_missing_locations(body)
+    return body
+
+
 def _pred_shape(run, lam, r, where_short, name, stamp_field, key_expected):
     """lambda d: <time> - d >= <stamp>[key]   (or the equivalent rearrangements)."""
-    if not isinstance(lam, ast.Lambda) or len(lam.args.args) != 1:
+    extra = lam.args.args[1:] if isinstance(lam, ast.Lambda) else []
+    if not isinstance(lam, ast.Lambda) or not lam.args.args or len(lam.args.defaults) != len(extra) or lam.args.kwonlyargs or lam.args.vararg or lam.args.kwarg:
         run.fail(r, where_short, "'%s' predicate shape" % name, 'not a one-argument lambda', lam)
         return
     d = lam.args.args[0].arg
     body = strip_cast(lam.body)
+    if extra:
+        # lambda d, timer=<expr>: ..  - the idiom that binds a value when the closure is made: the body is read with the defaults filled in
+        import copy
+        from ..partial import _Subst
+        body = strip_cast(_Subst({a.arg: dv for a, dv in zip(extra, lam.args.defaults)}).visit(copy.deepcopy(body)))
+        ast.fix_missing_locations(body)
     if not (isinstance(body, ast.Compare) and len(body.ops) == 1):
         run.fail(r, where_short, "'%s' predicate shape" % name, 'not a single comparison', lam)
         return
@@ -58,6 +78,10 @@ def _pred_shape(run, lam, r, where_short, name, stamp_field, key_expected):
 
 
 def check(run):
+    # the predicates read the time and the stamps through self._interpreter: a copied evaluator must be linked to the copied interpreter
+    from .c18 import rules_hooks
+    run.guard(rules_hooks, run, 'C13.4', ('PythonEvaluator', 'Evaluator', 'Interpreter'),
+              ' (a copy hook that keeps _interpreter by reference makes the copy read the time, entry and idle stamps of the original)')
     prog = run.prog
     r = run.rule('C13.1', 'one sample: _time written only in __init__ and first thing in execute_once from self.clock.time; the clock is read nowhere else in '
                           'interpreter/code; MacroStep.time, the exposed `time` and `step started` read Interpreter.time')
@@ -193,7 +217,7 @@ def check(run):
                 for nm_ in ('after', 'idle'):
                     lam = strip_cast(table.get(nm_)) if table.get(nm_) is not None else None
                     if isinstance(lam, ast.Lambda):
-                        for x in ast.walk(lam.body):
+                        for x in ast.walk(_filled_body(lam)):
                             if isinstance(x, ast.Subscript) and q.unparse(x.value).startswith('self._interpreter._'):
                                 keyexprs.add(q.unparse(x.slice))
                 if 'after' in keys:
